@@ -105,6 +105,10 @@ package wamp
 //@   pure
 //@   ensures [chan] result == method(recv, "Send")
 
+//@ iface (Peer) Recv
+//@   pure
+//@   ensures [chan] result == method(recv, "Recv")
+
 //@ iface (Message) MessageType
 //@   pure
 //@   dispatch
@@ -157,3 +161,26 @@ package wamp
 //@ func (s *Session) RecvDone
 //@   requires s != nil
 //@   modifies s.done, ghost closed
+
+//@ func RecvTimeout
+//@   requires !isnil(p)
+//@   recvsite : [peers-deliver-well-formed-messages] assume !isnil(m) && (is(m, *Hello) ==> m.(*Hello) != nil) && (is(m, *Authenticate) ==> m.(*Authenticate) != nil)
+//@   ensures [message-or-error] isnil(result1) ==> !isnil(result0) && (is(result0, *Hello) ==> result0.(*Hello) != nil) && (is(result0, *Authenticate) ==> result0.(*Authenticate) != nil)
+
+// NormalizeDict goes through reflect; the only fact used is that a value of a
+// map kind (wamp.Dict here) always yields a non-nil Dict.
+//@ func NormalizeDict
+//@   trusted
+//@   modifies nothing
+//@   ensures [map-kind-gives-dict] is(v, Dict) ==> result != nil && fresh(result)
+
+//@ func (s *Session) setRoles
+//@   requires s != nil
+//@   modifies s.roles, all map[string]map[string]struct{}, all map[string]struct{}
+
+//@ func NewSession
+//@   modifies nothing
+//@   ensures result != nil && fresh(result) && result.ID == id && result.Peer == peer && result.Details == details
+
+// The realm named in a HELLO is never rewritten after the message is built.
+//@ immutable Hello Realm
